@@ -122,7 +122,7 @@ class Gen:
         return {'mappings': encode_segments(segs, r), 'sources': sources,
                 'contents': contents if with_contents else [], 'names': names,
                 'file': None if r.random() < 0.8 else 'out.js',
-                'root': weighted(r, [(None, 6), ('', 1), ('r', 1), ('r/', 1)]) if r.random() < self.cfg.root else None,
+                'root': weighted(r, [(None, 6), ('', 1), ('r', 1), ('r/', 1), ('/', 0.5), ('webpack:///', 0.7), ('file://', 0.5), ('a//b//', 0.3)]) if r.random() < self.cfg.root else None,
                 'debug': None if r.random() < 0.9 else 'dbg-1', 'segs': segs}
 
     def wild_map(self, value):
